@@ -1469,7 +1469,7 @@ Definition ex_owns (p : N) : list N :=
    destructors delete a pending object and the marked survivor 24 from inside the sweep, an
    explicit deletion, re-use of a freed address, a root *)
 (* the destructor of 8 also allocates a managed object at 4096 (outside the address window so
-   far, home colliding modulo 5) and a root at 4104 *)
+   far, home colliding modulo 5), a temporary at 4112 that it deletes at once, and a root at 4104 *)
 Definition ex_spawns (p : N) : list dact :=
   if N.eqb p 8 then [DSpawn 4096 false; DTemp 4112 false; DSpawn 4104 true]%N else [].
 Definition ex_d : dtors := mkD ex_owns ex_spawns [8; 16; 24]%N.
